@@ -105,7 +105,7 @@ class FuncResult:
 
 class Native:
     def __init__(self, child_timeout: float = 30.0):
-        for tool in ("gcc", "as"):
+        for tool in ("gcc", "as", "nm"):
             if shutil.which(tool) is None:
                 raise HarnessError(f"{tool} not found")
         self.dir = tempfile.mkdtemp(prefix="xv-c21-")
@@ -179,6 +179,10 @@ class Native:
             live = [(sym, text) for sym, text in live if sym not in bad]
         else:
             return self._assemble_each(tag, units)
+        if live and self._undefined(obj):
+            # accepted by `as` but refers to symbols nobody defines (e.g. a garbled operand read as a symbol):
+            # generated leaf functions must be self-contained; attribute per unit
+            return self._assemble_each(tag, units)
         self.stats["asm_rejected"] += len(rejected)
         if not live:
             return None, rejected
@@ -186,6 +190,12 @@ class Native:
         self._sh(["gcc", "-shared", "-nostdlib", "-o", so, obj, "-Wl,-z,noexecstack"])
         self.stats["links"] += 1
         return so, rejected
+
+    def _undefined(self, obj) -> list:
+        p = subprocess.run(["nm", "-u", obj], capture_output=True, text=True, timeout=60)
+        if p.returncode != 0:
+            raise HarnessError(f"nm -u {obj} failed: {p.stderr[-300:]}")
+        return [ln.split()[-1] for ln in p.stdout.splitlines() if ln.strip()]
 
     def _assemble_each(self, tag: str, units):
         rejected = {}
@@ -199,6 +209,8 @@ class Native:
             self.stats["as_runs"] = self.stats.get("as_runs", 0) + 1
             if p.returncode != 0 or not os.path.exists(o):
                 rejected[sym] = p.stderr.replace(s, "<asm>")[:1500]
+            elif (und := self._undefined(o)):
+                rejected[sym] = "<asm>:0: Error: undefined symbol in generated code: " + " ".join(sorted(set(und))[:6])
             else:
                 objs.append(o)
         self.stats["asm_rejected"] += len(rejected)
